@@ -17,15 +17,15 @@ RULE = ("Hypothesis: well-formed notes on 2 channels over 1-3 pitches (abutting 
         "argmin |v-old| over fit; velocity/onset/pitch/channel unchanged; non-note events identical; no overlap. "
         "Non-trivial: >= 2 notes of one key and >= 1 note whose duration is not in the list. Distinct by case digest.")
 ASSUMPTIONS = ["total duration (trailing INTERNAL marker) is not part of the statement"]
-TIERS = {"quick": dict(shards=8, examples=1500), "thorough": dict(shards=16, examples=25000)}
+TIERS = {"quick": dict(shards=8, examples=1500), "thorough": dict(size=2, shards=16, examples=25000)}
 
 VALUES = [1, 2, 3, 4, 5, 6, 7, 8, 12, 16, 24, 36, 48]
 
 
 @st.composite
-def _case(draw):
+def _case(draw, size=1):
     pitches = draw(st.sampled_from([(60,), (60, 61), (60, 61, 62)]))
-    notes = draw(gens.wellformed_notes(channels=(0, 1), pitches=pitches, max_notes=9, max_len=50, max_gap=30))
+    notes = draw(gens.wellformed_notes(channels=(0, 1), pitches=pitches, max_notes=9 * size, max_len=50, max_gap=30))
     meta = draw(gens.meta_events(max_tick=150, max_events=3, with_noise=True))
     spec = {"notes": notes, "meta": meta}
     spec.update(draw(gens.route()))
@@ -37,7 +37,8 @@ def _case(draw):
 
 
 def strategy(params, shard, nshards):
-    return _case()
+    # thorough tier: odd shards draw larger cases (size 2), even shards keep the small, dense ones
+    return _case(size=params.get("size", 1) if shard % 2 else 1)
 
 
 def check(case):
